@@ -6,7 +6,7 @@ python data owned by one path.
 """
 import ast, z3, copy, hashlib
 from .ty import *
-from .registry import SPEC, LEMMAS, CLASSES, CONTRACTS, INLINE, CONSTS, Contract, GHOSTS
+from .registry import SPEC, LEMMAS, CLASSES, CONTRACTS, INLINE, CONSTS, Contract, GHOSTS, EFFECTS
 from . import registry
 
 
@@ -574,6 +574,14 @@ class Engine:
             result = fr.yielded if is_gen else r.v
         except PyRaise as e:
             raised = e
+        # ghost frame: a ghost variable the contract does not list under modifies_ghost is unchanged on every exit
+        entry_ghost = self.old_stack[-1][2]
+        for g in sorted(self.ghostv):
+            if g in c.modifies_ghost:
+                continue
+            if not z3.eq(self.ghostv[g].t, entry_ghost[g].t):
+                self.oblige("ghost_frame[%s]" % g, self.ghostv[g].t == entry_ghost[g].t, node.lineno,
+                            "ghost variable %s changes but is not listed under modifies_ghost" % g)
         # in postconditions parameter names denote the values at entry (references), read in the final heap
         env = dict(fr.env)
         env.update(self.entry_env)
@@ -586,6 +594,10 @@ class Engine:
                                 node.lineno, "normal return although the contract demands " + exc)
             for i, e in enumerate(c.ensures):
                 self.oblige("post", self.spec_bool(e, env, old=True), node.lineno, e)
+            for p_, st_ in c.becomes.items():
+                from .builtins_ import matches
+                self.oblige("typestate[%s]" % p_, z3.BoolVal(bool(matches(self, env.get(p_), TObj(st_)))), node.lineno,
+                            "%s has the shape %s on return" % (p_, st_))
             if c.decreases is not None:
                 pass
         else:
@@ -865,7 +877,7 @@ class Engine:
         try:
             self.exec_block(s.body, fr)
         finally:
-            if isinstance(cm, Ref) and self.cell(cm)[0] == "file":
+            if isinstance(cm, SV) and cm.ty == TFile:
                 self.call_method(cm, "close", [], {}, fr, s)
 
     def st_FunctionDef(self, s, fr):
@@ -1004,6 +1016,40 @@ class Engine:
                 fr.env[n] = self.havoc_value(n, None, types[n])
         if fr.yielded is not None:
             self.setcell(fr.yielded, self.havoc_cell("result", self.cell(fr.yielded)))
+        for g in sorted(self.ghost_touched(body)):
+            if g in self.ghostv:
+                self.ghostv[g] = self.fresh("ghost_" + g, self.ghostv[g].ty)
+
+    def ghost_touched(self, body):
+        """ghost variables a loop body may change: through file operations, effect handlers, or callees whose
+        contract lists them under modifies_ghost (matched by method name: an over-approximation)"""
+        if not self.ghostv:
+            return set()
+        from .files import OP_TOUCHES
+        by_name = {}
+        for k, c in CONTRACTS.items():
+            if c.modifies_ghost:
+                by_name.setdefault(k.split(":")[1].split(".")[-1].split("#")[0], set()).update(c.modifies_ghost)
+        for k in EFFECTS:
+            by_name.setdefault(k.split(":")[1].split(".")[-1], set()).update(GHOSTS)
+        out = set()
+        for st in body:
+            for n in ast.walk(st):
+                names = []
+                if isinstance(n, ast.Call):
+                    names.append(n.func.attr if isinstance(n.func, ast.Attribute) else (
+                        n.func.id if isinstance(n.func, ast.Name) else None))
+                    if names[-1] in ("iter", "list", "tuple"):
+                        names.append("__iter__")
+                elif isinstance(n, ast.Subscript):
+                    names.append({"Load": "__getitem__", "Store": "__setitem__", "Del": "__delitem__"}[type(n.ctx).__name__])
+                elif isinstance(n, (ast.For, ast.comprehension)):
+                    names.append("__iter__")
+                for nm in names:
+                    if nm in OP_TOUCHES:
+                        out.update(OP_TOUCHES[nm])
+                    out.update(by_name.get(nm, ()))
+        return out
 
     def check_invs(self, kind, spec, fr, extra, line):
         env = dict(fr.env)
@@ -1262,6 +1308,15 @@ class Engine:
     # ------------------------------------------------------------------ assignment
     def assign(self, target, v, fr):
         from .externals import Unpickled, resolve_unpickled
+        if isinstance(v, Unpickled) and isinstance(target, ast.Attribute):
+            obj = self.eval(target.value, fr)
+            fty = None
+            if isinstance(obj, Ref) and self.cell(obj)[0] == "obj":
+                fty = self.cell(obj)[1].fields.get(self.mangle(target.attr, fr))
+            if fty is None or fty == TAny:
+                raise Unsupported("pickle.load result stored in a field without a declared type")
+            self.set_attr(obj, self.mangle(target.attr, fr), resolve_unpickled(self, v, fty), fr, target)
+            return
         if isinstance(v, Unpickled):
             c = fr.contract
             names = [target.id] if isinstance(target, ast.Name) else [
@@ -1312,11 +1367,16 @@ class Engine:
             return [d.get(i) for i in range(n)]
         raise Unsupported("unpack %r" % (v,))
 
-    def mangle(self, attr, fr):
+    def mangle(self, attr, fr, obj=None):
         if attr.startswith("__") and not attr.endswith("__"):
             for f in reversed(self.frames):
                 if f.clsnode is not None:
                     return "_%s%s" % (f.clsnode.name.lstrip("_"), attr)
+            # specifications of ghost client code name private fields of an object directly
+            if isinstance(obj, Ref) and self.cell(obj)[0] == "obj":
+                for f in self.cell(obj)[2]:
+                    if f.endswith(attr) and f.startswith("_") and f[1:-len(attr)].isidentifier():
+                        return f
         return attr
 
     def set_attr(self, obj, attr, v, fr, node):
@@ -1355,7 +1415,36 @@ class Engine:
         return e.value
 
     def ex_JoinedStr(self, e, fr):
-        return Opaque("fstring")
+        """f-strings built from literals and plain names/attributes of str or int type are real strings (file names);
+        anything else (messages) is opaque"""
+        parts = []
+        for v in e.values:
+            if isinstance(v, ast.Constant) and isinstance(v.value, str):
+                parts.append(z3.StringVal(v.value))
+                continue
+            if not (isinstance(v, ast.FormattedValue) and v.conversion == -1 and v.format_spec is None
+                    and isinstance(v.value, ast.Name) and v.value.id in fr.env):
+                return Opaque("fstring")
+            x = fr.env[v.value.id]
+            if isinstance(x, str):
+                parts.append(z3.StringVal(x))
+            elif isinstance(x, bool):
+                return Opaque("fstring")
+            elif isinstance(x, int):
+                parts.append(z3.StringVal(str(x)))
+            elif isinstance(x, SV) and x.ty == TStr:
+                parts.append(x.t)
+            elif isinstance(x, SV) and x.ty == TInt:
+                parts.append(z3.If(x.t < 0, z3.Concat(z3.StringVal("-"), z3.IntToStr(-x.t)), z3.IntToStr(x.t)))
+            else:
+                return Opaque("fstring")
+        if not parts:
+            return ""
+        t = parts[0] if len(parts) == 1 else z3.Concat(*parts)
+        t = z3.simplify(t)
+        if z3.is_string_value(t):
+            return t.as_string()
+        return SV(t, TStr)
 
     def ex_Name(self, e, fr):
         n = e.id
@@ -1506,7 +1595,7 @@ class Engine:
 
     def ex_Attribute(self, e, fr):
         obj = self.eval(e.value, fr)
-        return self.get_attr(obj, self.mangle(e.attr, fr), fr, e)
+        return self.get_attr(obj, self.mangle(e.attr, fr, obj), fr, e)
 
     def ex_Subscript(self, e, fr):
         base = self.eval(e.value, fr)
